@@ -513,3 +513,16 @@ Definition gd_line_split (min_idx : Z) (line : list N) : gd_split :=
     else if (i <? 1)%nat then GdSplitPanic
     else GdSplitOk (firstn (i - 1) (skipn 1 line)) (skipn (S i) line)
   end.
+
+(* ------------------------------------------------------------------------------------ *)
+(* TWO numbers of the peer that bound each other.  The guard in front of recvPrefixHash's make
+   with its upper bound as a parameter: [bound_by_size = false] compares the amount make gets
+   (step = hash.Step - matchStep) with a constant of the code, [bound_by_size = true] compares
+   the announced hash.Step with the announced size (NAME size at protocol 4, the SIZE line at
+   protocol 3) - both chosen by the peer. *)
+Definition gd_hash_guard2 (bound_by_size : bool) (const_bound size match_step hash_step : Z) : bool :=
+  let step := hash_step - match_step in
+  negb ((step <=? 0) || (if bound_by_size then hash_step >? size else step >? const_bound)).
+
+(* the general shape: an amount [a] is let through when it does not exceed [b]; who chooses b? *)
+Definition gd_pair_accepts (a b : Z) : bool := (0 <? a) && (a <=? b).
